@@ -323,8 +323,15 @@ impl<const BITS: usize, const LIMBS: usize> Uint<BITS, LIMBS> {
             r.limbs[i + limbs] = (x << bits) | carry;
             carry = (x >> (word_bits - bits - 1)) >> 1;
         }
+        // Bits are also lost in limbs that are dropped whole and in the part of
+        // the last limb that lies above `BITS`.
+        let mut overflow = carry != 0;
+        for i in Self::LIMBS - limbs..Self::LIMBS {
+            overflow |= self.limbs[i] != 0;
+        }
+        overflow |= r.limbs[LIMBS - 1] > Self::MASK;
         r.apply_mask();
-        (r, carry != 0)
+        (r, overflow)
     }
 
     /// Left shift by `rhs` bits.
